@@ -486,6 +486,66 @@ def _make_unpack_contract(real):
     return unpack_bitstring
 
 
+_COMPOSED = {"space": None, "memo": {}}
+
+
+def compose_be(raw, signed):
+    """int value of big-endian bytes `raw` (two's complement if signed); the composition is remembered so that
+    struct.pack of the very same term can return the bytes it was made from (no div/mod terms)."""
+    elems = _elements(raw)
+    with NoTracing():
+        if not any(_is_sym(e) for e in elems):
+            return int.from_bytes(bytes(elems), "big", signed=signed)
+        space = context_statespace()
+        zs = [_z(e) for e in elems]
+        total = z3.IntVal(0)
+        for zb in zs:
+            total = total * 256 + zb
+        if signed:
+            total = z3.If(zs[0] >= 128, total - (1 << (8 * len(zs))), total)
+        if _COMPOSED["space"] is not space:
+            _COMPOSED["space"] = space
+            _COMPOSED["memo"] = {}
+        _COMPOSED["memo"][total.get_id()] = (total, list(elems), signed)
+        return SymbolicInt(total)
+
+
+_INT_FORMATS = {"B": (1, False), "b": (1, True), "H": (2, False), "h": (2, True), "I": (4, False), "i": (4, True),
+                "L": (4, False), "l": (4, True), "Q": (8, False), "q": (8, True)}
+
+
+def _struct_pack(fmt, *args):
+    """struct.pack layer: (1) '<N>s' of a bytes value is the value itself (padded / cut to N);
+    (2) a big-endian integer format applied to a remembered composition returns the bytes it was composed from;
+    everything else -> CrossHair's struct.pack model."""
+    import struct
+    import re
+    with NoTracing():
+        concrete_fmt = isinstance(fmt, str)
+    if concrete_fmt and len(args) == 1:
+        m = re.match(r"^[<>!=@]?(\d*)s$", fmt)
+        if m:
+            n = int(m.group(1) or "1")
+            v = args[0]
+            if len(v) == n:
+                return v if not isinstance(v, bytearray) else bytes(v)
+            if len(v) > n:
+                return v[:n]
+            return v + bytes(n - len(v))
+        if len(fmt) == 2 and fmt[0] in "!>" and fmt[1] in _INT_FORMATS:
+            with NoTracing():
+                hit = None
+                if isinstance(args[0], SymbolicInt) and _COMPOSED["space"] is context_statespace():
+                    h = _COMPOSED["memo"].get(args[0].var.get_id())
+                    if h is not None and z3.eq(h[0], args[0].var):
+                        w, sg = _INT_FORMATS[fmt[1]]
+                        if len(h[1]) == w and h[2] == sg:
+                            hit = SymbolicBytes(list(h[1]))
+            if hit is not None:
+                return hit
+    return struct.pack(fmt, *args)
+
+
 def _struct_pack_method(self, *args):
     """struct.Struct(fmt).pack(*args) (six.int2byte is Struct('>B').pack): route through CrossHair's struct.pack model."""
     import struct
@@ -500,10 +560,21 @@ def install(INSTALLED, contracts=()):
     _PATCH_REGISTRATIONS[binascii.unhexlify] = _a2b_hex
     INSTALLED["models"].append("binascii.b2a_hex/hexlify, a2b_hex/unhexlify: per-nibble z3 If encodings (one fork on 'all digits valid')")
     _PATCH_REGISTRATIONS[int] = _int
+
+    def _bytes_bool(self):
+        # Python 3.12 falls back to __len__ for the truthiness of CrossHair's symbolic bytes, which concretises the
+        # length; emptiness is all that truthiness needs (one fork)
+        if len(self) != 0:          # the interpreter's truth test on a symbolic bool forks the path
+            return True
+        return False
+    _bl.BytesLike.__bool__ = _bytes_bool
+    INSTALLED["models"].append("truthiness of symbolic bytes: fork on emptiness only (instead of concretising the length)")
     _bl.BytesLike._ch_swap_ascii_case = _swap_ascii_case
     INSTALLED["models"].append("hex characters produced by the hex models are remembered per path: upper(hexchar(n)) = HEXCHAR(n), hexval(hexchar(n)) = n (identities checked exhaustively for n in 0..15)")
     INSTALLED["models"].append("int(<=2 symbolic bytes, 16): exact for hex digits and for bytes int() rejects; whitespace/sign/underscore region concretised and evaluated by the real int()")
     import struct
+    _PATCH_REGISTRATIONS[struct.pack] = _struct_pack
+    INSTALLED["models"].append("struct.pack('<N>s', bytes) = the bytes (padded/cut to N); struct.pack of a big-endian integer format applied to an int the harness composed from bytes returns those bytes (identity int.to_bytes(int.from_bytes(b)) == b)")
     _PATCH_REGISTRATIONS[struct.Struct.pack] = _struct_pack_method
     INSTALLED["models"].append("struct.Struct.pack (six.int2byte) -> CrossHair's struct.pack model")
     _install_bitops()
